@@ -34,6 +34,8 @@ def families(tier):
         {'name': 'fresh', 'params': {'target': 'a/b/c/t', 'modes': MODES, 'faults': [None, 'a', 'a/b', 'a/b/c']}, 'weight': 3},
         {'name': 'fresh', 'params': {'target': 'a/t', 'modes': MODES, 'faults': [None, 'a']}, 'weight': 1},
         {'name': 'stale', 'params': {'target': 'a/b/c/t', 'modes': MODES, 'faults': [None, 'a/b/c']}, 'weight': 3},
+        {'name': 'fresh', 'params': {'target': 'a/b/c/t', 'modes': ['ok', 'raise_before', 'raise_after', 'no_create'], 'faults': [None],
+                                     'nested': True}, 'weight': 2},
     ]
     if tier == 'quick':
         return q
@@ -57,9 +59,10 @@ def spell(w, rel, how):
 class Run:
     """The user program, written once and run against the real builder and the reference builder."""
 
-    def __init__(self, w, fs, target, mode, content, how, sibling, name='f'):
+    def __init__(self, w, fs, target, mode, content, how, sibling, name='f', nested=None):
         self.w, self.fs = w, fs
         self.name = name
+        self.nested = nested
         self.target, self.mode, self.content, self.how, self.sibling = target, mode, content, how, sibling
         self.obs = {}
         self.raised = None
@@ -67,6 +70,16 @@ class Run:
 
     def func(self, b, fn):
         self.calls += 1
+        if self.nested:
+            # a nested build_file in the same new directory chain that fails and is caught here
+            def nf(b2, fn2):
+                if self.nested == 'after':
+                    self.w.user_write(self.fs, fn2, 55)
+                raise Boom()
+            try:
+                b.build_file(self.w.p(posixpath.dirname(self.target) + '/nested/n'), 'nested', nf)
+            except Boom:
+                pass
         self.obs['fn'] = fn
         self.obs['absent_at_start'] = self.fs.kind(fn) == ABSENT
         self.obs['virt_in'] = (b.is_file(fn), b.exists(fn))
@@ -139,8 +152,10 @@ def harness(eng, fam, P):
             if ok and r0i.obs.get('outcome') == 'ok':
                 eng.witness('stale-target')
             mutate(eng, w, 'm', ['none', 'delete', 'write', 'rmtree', 'file2dir'], ['a/b/c/t', 'a/b/c', 'a/b/z', 'a/b'])
-        ri = Run(w, w.fs, target, mode, content, how, P.get('sibling'))
-        rr = Run(w, w.ref, target, mode, content, how, P.get('sibling'))
+        nested = [None, 'before', 'after'][eng.choose('nested', 3)] if P.get('nested') else None
+        eng.path_info['nested'] = nested
+        ri = Run(w, w.fs, target, mode, content, how, P.get('sibling'), nested=nested)
+        rr = Run(w, w.ref, target, mode, content, how, P.get('sibling'), nested=nested)
         fault_path = w.p(fault) if fault else None
         fired = []
         if fault_path:
